@@ -35,12 +35,12 @@ func runC15(c *Ctx) {
 		if p == nil {
 			continue
 		}
-		checkWriter(c, p, writerSpec{"", "writeRIFF", nil, nil, nil, ""}, max)
+		checkWriter(c, p, writerSpec{rel: "", name: "writeRIFF"}, max)
 		if c.Tier == "thorough" {
-			checkWriter(c, p, writerSpec{"mux", "Muxer.Assemble", []string{"frameDimensions", "canvasSize"}, nil, muxFrameDomain, muxFrameDomainDoc}, max)
+			checkWriter(c, p, writerSpec{rel: "mux", name: "Muxer.Assemble", opaque: []string{"frameDimensions", "canvasSize"}, domain: muxFrameDomain, domainDoc: muxFrameDomainDoc}, max)
 		} else {
 			c.Note("quick tier: Muxer.validate is not followed; its guarantee 'at least one frame' is assumed (the thorough tier follows it)")
-			checkWriter(c, p, writerSpec{"mux", "Muxer.Assemble", []string{"validate", "frameDimensions", "canvasSize"}, map[string]bool{"ge:1:len(m.frames)": true}, muxFrameDomain, muxFrameDomainDoc}, max)
+			checkWriter(c, p, writerSpec{rel: "mux", name: "Muxer.Assemble", opaque: []string{"validate", "frameDimensions", "canvasSize"}, pre: map[string]bool{"ge:1:len(m.frames)": true}, domain: muxFrameDomain, domainDoc: muxFrameDomainDoc}, max)
 		}
 		c15NonInterference(c, p)
 		c15Siblings(c, p)
